@@ -29,7 +29,7 @@ def plan(tier, seed):
 
 def conclude(agg):
     c = agg['counters']
-    return [f'monitor counter {k} is zero' for k in ('nodes_yielded', 'lines_yielded', 'level_checks', 'fanin_sets', 'circuits_with_open_pin0', 'circuits_with_state',
+    return [f'monitor counter {k} is zero' for k in ('nodes_yielded', 'lines_yielded', 'level_checks', 'deep_path_circuits', 'fanin_sets', 'circuits_with_open_pin0', 'circuits_with_state',
                                                      'lookups', 'lookups_2d', 'lookups_ge10', 'lookups_none', 'removed_lines', 'rewired_same_counts', 'relookups_after_edit', 'wide_fanout_circuits')
             if c.get(k, 0) == 0]
 
@@ -342,7 +342,46 @@ def check_names(case, ctx):
     ctx.sample({'names': [x[0] for x in items][:12], 'prefixes': prefixes})
 
 
+def check_deep(case, ctx):
+    """A combinational path deeper than 2**15 / 2**16 nodes: the reported levels must still be the longest distances (no narrow counter)."""
+    from kyupy.circuit import Circuit, Node, Line
+    depth, side = case['depth'], case['side']
+    ctx.case(case, True, key=['deep', depth, side])
+    with ctx.guard('traversal-raises', case):
+        c = Circuit('deep')
+        prev = Node(c, 'a', 'input')
+        other = Node(c, 'b', 'input')
+        want = {prev.index: 0, other.index: 0}
+        for i in range(depth):
+            # every `side`-th node is a two-input gate that also reads the second input (a short and a long path meet)
+            two = side and i % side == side - 1
+            n = Node(c, f'g{i}', 'AND2' if two else 'BUF1')
+            Line(c, prev, (n, 0))
+            if two:
+                Line(c, other, (n, 1))
+            want[n.index] = i + 1
+            prev = n
+        z = Node(c, 'z', 'output')
+        Line(c, prev, z)
+        want[z.index] = depth + 1
+        seen = set()
+        for n, l in c.topological_order_with_level():
+            ctx.count('level_checks')
+            seen.add(n.index)
+            if int(l) != want[n.index]:
+                ctx.violation('topological-level', f'chain of {depth} gates: node {n.index} ("{n.name}") reported level {l}, longest combinational distance from a source is {want[n.index]}', case)
+                return
+        if len(seen) != len(c.nodes):
+            ctx.violation('topological-level', f'chain of {depth} gates: topological_order_with_level yielded {len(seen)} of {len(c.nodes)} nodes', case)
+            return
+        ctx.count('deep_path_circuits')
+
+
 def run(spec, ctx):
+    if spec['shard'] < 3:
+        rng = random.Random(f'C17d/{spec["seed"]}/{spec["shard"]}')
+        base = [1 << 15, 1 << 16, 1 << 15][spec['shard']]
+        check_deep({'deep': True, 'depth': base + rng.choice([-1, 0, 1, 2, 300]) + (0 if spec['shard'] < 2 else rng.randrange(2, 2000)), 'side': rng.choice([0, 7, 1000])}, ctx)
     feats_all = ['unconn_in', 'unconn_out', 'ff_no_d', 'out_read', 'wiring', 'consts', 'floating', 'ff_unread']
     for i in range(spec['n']):
         rng = random.Random(f'C17/{spec["seed"]}/{spec["shard"]}/{i}')
@@ -360,7 +399,9 @@ def run(spec, ctx):
 
 
 def replay(case, ctx):
-    if case.get('names'):
+    if case.get('deep'):
+        check_deep(case, ctx)
+    elif case.get('names'):
         check_names(case, ctx)
     else:
         check_traversals(case, ctx)
